@@ -76,7 +76,7 @@ Lemma edges_agreeb_sound es :
   read_edges es = drop_padding es /\ Forall (fun e => row_args (e_cond e) = ref_args (e_cond e) /\ noop_args (e_cond e) = ref_args (e_cond e)) es.
 Proof.
   unfold edges_agreeb. intros H. apply andb_true_iff in H as [H1 H2]. split.
-  - unfold read_edges. destruct drops_padding_edges_everywhere; [reflexivity|]. cbn [orb] in H1. symmetry. apply no_paddingb_sound, H1.
+  - unfold read_edges. destruct padding_edges_dropped_at_read; [reflexivity|]. cbn [orb] in H1. symmetry. apply no_paddingb_sound, H1.
   - rewrite forallb_forall in H2. apply Forall_forall. intros e He. apply cond_agreesb_sound, H2, He.
 Qed.
 
@@ -109,16 +109,16 @@ Qed.
    has_group tests: in every condition when both add_exit functions write [None, name], otherwise only in
    conditions of another type. *)
 Theorem reading_agrees_decided :
-  (if drops_padding_edges_everywhere then forall cr, reads_same cr
+  (if padding_edges_dropped_at_read then forall cr, reads_same cr
    else forall cr, no_paddingb (r_edges (cr_row cr)) = true -> reads_same cr)
-  /\ (if has_group_by_name_in_rows && has_group_by_name_from_noop
+  /\ (if has_group_edges_by_name && has_group_by_name_from_noop
       then forall c, row_args c = ref_args c /\ noop_args c = ref_args c
       else forall c, has_group_typed c = false -> row_args c = ref_args c /\ noop_args c = ref_args c).
 Proof.
   split.
-  - unfold reads_same, read_edges. destruct drops_padding_edges_everywhere; [reflexivity|].
+  - unfold reads_same, read_edges. destruct padding_edges_dropped_at_read; [reflexivity|].
     intros cr H. symmetry. apply no_paddingb_sound, H.
-  - destruct (has_group_by_name_in_rows && has_group_by_name_from_noop) eqn:E.
+  - destruct (has_group_edges_by_name && has_group_by_name_from_noop) eqn:E.
     + intros c. apply cond_agreesb_sound. unfold cond_agreesb. rewrite E. reflexivity.
     + intros c H. apply cond_agreesb_sound. unfold cond_agreesb. rewrite H. apply orb_true_r.
 Qed.
